@@ -56,6 +56,24 @@ func (p *ProofU) MergeProofP(proofP *ProofP, pk *gabikeys.PublicKey) {
 	}
 }
 
+// wellFormed reports whether all fields that verification dereferences are present and every
+// attribute index of an extra response refers to an existing base other than the one of the
+// secret key (whose response is SResponse).
+func (p *ProofU) wellFormed(pk *gabikeys.PublicKey) bool {
+	if p == nil || pk == nil || pk.Params == nil || len(pk.R) == 0 {
+		return false
+	}
+	if p.U == nil || p.C == nil || p.VPrimeResponse == nil || p.SResponse == nil {
+		return false
+	}
+	for i, response := range p.MUserResponses {
+		if response == nil || i < 1 || i >= len(pk.R) {
+			return false
+		}
+	}
+	return true
+}
+
 // Verify verifies whether the proof is correct.
 func (p *ProofU) Verify(pk *gabikeys.PublicKey, context, nonce *big.Int) bool {
 	contrib, err := p.ChallengeContribution(pk)
@@ -76,6 +94,9 @@ func (p *ProofU) correctResponseSizes(pk *gabikeys.PublicKey) bool {
 
 // VerifyWithChallenge verifies whether the proof is correct.
 func (p *ProofU) VerifyWithChallenge(pk *gabikeys.PublicKey, reconstructedChallenge *big.Int) bool {
+	if !p.wellFormed(pk) || reconstructedChallenge == nil {
+		return false
+	}
 	return p.correctResponseSizes(pk) && p.C.Cmp(reconstructedChallenge) == 0
 }
 
@@ -124,6 +145,9 @@ func (p *ProofU) Challenge() *big.Int {
 // ChallengeContribution returns the contribution of this proof to the
 // challenge.
 func (p *ProofU) ChallengeContribution(pk *gabikeys.PublicKey) ([]*big.Int, error) {
+	if !p.wellFormed(pk) {
+		return nil, errors.New("malformed proof")
+	}
 	Ucommit, err := p.reconstructUcommit(pk)
 	if err != nil {
 		return nil, err
@@ -177,6 +201,45 @@ func (p *ProofD) MergeProofP(proofP *ProofP, _ *gabikeys.PublicKey) {
 	} else {
 		p.AResponses[0].Add(p.AResponses[0], proofP.SResponse)
 	}
+}
+
+// wellFormed reports whether all fields that verification dereferences are present, every
+// attribute index refers to an existing base and is either disclosed or hidden but never both,
+// the secret key is hidden, and range proofs are attached to hidden attributes only.
+func (p *ProofD) wellFormed(pk *gabikeys.PublicKey) bool {
+	if p == nil || pk == nil || pk.Params == nil {
+		return false
+	}
+	if p.C == nil || p.A == nil || p.EResponse == nil || p.VResponse == nil {
+		return false
+	}
+	if p.AResponses[0] == nil {
+		return false
+	}
+	for i, response := range p.AResponses {
+		if response == nil || i < 0 || i >= len(pk.R) {
+			return false
+		}
+	}
+	for i, attribute := range p.ADisclosed {
+		if attribute == nil || i < 0 || i >= len(pk.R) {
+			return false
+		}
+		if _, hidden := p.AResponses[i]; hidden {
+			return false
+		}
+	}
+	for i, proofs := range p.RangeProofs {
+		if _, hidden := p.AResponses[i]; !hidden {
+			return false
+		}
+		for _, proof := range proofs {
+			if proof == nil {
+				return false
+			}
+		}
+	}
+	return true
 }
 
 func (p *ProofD) reconstructRangeProofStructures(pk *gabikeys.PublicKey) error {
@@ -276,6 +339,9 @@ func (p *ProofD) HasNonRevocationProof() bool {
 // VerifyWithChallenge verifies the proof against the given public key and the provided
 // reconstructed challenge.
 func (p *ProofD) VerifyWithChallenge(pk *gabikeys.PublicKey, reconstructedChallenge *big.Int) bool {
+	if !p.wellFormed(pk) || reconstructedChallenge == nil {
+		return false
+	}
 	var notrevoked bool
 	// Validate non-revocation
 	if p.HasNonRevocationProof() {
@@ -297,6 +363,9 @@ func (p *ProofD) VerifyWithChallenge(pk *gabikeys.PublicKey, reconstructedChalle
 // ChallengeContribution returns the contribution of this proof to the
 // challenge.
 func (p *ProofD) ChallengeContribution(pk *gabikeys.PublicKey) ([]*big.Int, error) {
+	if !p.wellFormed(pk) {
+		return nil, errors.New("malformed proof")
+	}
 	z, err := p.reconstructZ(pk)
 	if err != nil {
 		return nil, errors.WrapPrefix(err, "Could not reconstruct Z", 0)
